@@ -247,6 +247,24 @@ def node_mutations(data, rng, tier="quick", open_strings=True, parts=("nodes", "
         yield ("bitflip", bytes(b))
 
 
+def explicit_wrapper_mutations(data):
+    """EXPLICIT tags ([n] constructed, one inner element): the wrapper is given content AFTER its inner element - a second
+    element, a stray byte, the inner element twice.  Yields (kind, bytes); nothing for wrappers that hold 0 or >1 elements
+    (IMPLICIT SET OF / SEQUENCE OF)."""
+    tree = build(data, open_strings=True)
+    if tree is None:
+        return
+    for t in tree.walk():
+        if t.children is None or len(t.children) != 1 or t.prefix or len(t.tag) != 1 or (t.tag[0] & 0xE0) != 0xA0:
+            continue
+        w = _where(t)
+        for name, extra in (("second-element", b"\x05\x00"), ("stray-byte", b"\x00"), ("inner-element-twice", None)):
+            def f(n, c, extra=extra):
+                c2 = c + (extra if extra is not None else c)
+                return n.tag + der.enc_len(len(c2)) + c2
+            yield ("explicit-wrapper-%s@%s" % (name, w), encode(tree, {id(t): f}))
+
+
 def _drop_last(n):
     content = b"".join(encode(c) for c in n.children[:-1])
     return n.tag + der.enc_len(len(content)) + content
